@@ -90,7 +90,14 @@ def single_defs(func: Func) -> Dict[str, ast.AST]:
     params = {p.arg for p in func.all_params}
     out = {}
     for name, binds in assignments(func.node).items():
-        if name in params or len(binds) != 1:
+        if name in params:
+            continue
+        if len(binds) != 1:
+            # several bindings that all assign the very same expression count as one (a block duplicated by inlining / copy-paste)
+            if all(isinstance(b, ast.Assign) and len(b.targets) == 1 and isinstance(b.targets[0], ast.Name) for b in binds) \
+                    and len({ast.dump(b.value) for b in binds}) == 1 \
+                    and not any(isinstance(x, ast.Name) and x.id == name for x in ast.walk(binds[0].value)):
+                out[name] = binds[0].value
             continue
         b = binds[0]
         if isinstance(b, ast.Assign) and len(b.targets) == 1 and isinstance(b.targets[0], ast.Name):
